@@ -2,6 +2,7 @@ package stack
 
 import (
 	"github.com/brewlin/net-protocol/pkg/buffer"
+	"github.com/brewlin/net-protocol/pkg/sleep"
 	tcpip "github.com/brewlin/net-protocol/protocol"
 	"github.com/brewlin/net-protocol/protocol/ports"
 )
@@ -156,3 +157,36 @@ func VHRoute(nic *NIC, ep NetworkEndpoint, netProto tcpip.NetworkProtocolNumber,
 	ref := &referencedNetworkEndpoint{refs: 1, ep: ep, nic: nic, protocol: netProto, linkCache: lc}
 	return makeRoute(netProto, local, remote, nic.linkEP.LinkAddress(), ref)
 }
+
+// VHLinkAdd is one AddLinkAddress call seen by a capture link-address cache.
+type VHLinkAdd struct {
+	Nic  tcpip.NICID
+	Addr tcpip.Address
+	Link tcpip.LinkAddress
+}
+
+// VHLinkCache is a capture LinkAddressCache: Own decides CheckLocalAddress, Link/Err is the
+// answer of GetLinkAddress.
+type VHLinkCache struct {
+	Own    func(tcpip.Address) bool
+	Added  []VHLinkAdd
+	Link   tcpip.LinkAddress
+	Err    *tcpip.Error
+	Asked  []tcpip.Address
+	Wakers int
+}
+
+func (c *VHLinkCache) CheckLocalAddress(nicid tcpip.NICID, protocol tcpip.NetworkProtocolNumber, addr tcpip.Address) tcpip.NICID {
+	if c.Own != nil && c.Own(addr) {
+		return 1
+	}
+	return 0
+}
+func (c *VHLinkCache) AddLinkAddress(nicid tcpip.NICID, addr tcpip.Address, linkAddr tcpip.LinkAddress) {
+	c.Added = append(c.Added, VHLinkAdd{nicid, addr, linkAddr})
+}
+func (c *VHLinkCache) GetLinkAddress(nicid tcpip.NICID, addr, localAddr tcpip.Address, protocol tcpip.NetworkProtocolNumber, w *sleep.Waker) (tcpip.LinkAddress, <-chan struct{}, *tcpip.Error) {
+	c.Asked = append(c.Asked, addr)
+	return c.Link, nil, c.Err
+}
+func (c *VHLinkCache) RemoveWaker(nicid tcpip.NICID, addr tcpip.Address, waker *sleep.Waker) { c.Wakers++ }
